@@ -35,6 +35,21 @@ type c04Witness struct {
 // c04Parse renders and parses a spec, cross-checking that the parser saw the
 // intended pattern.  ok=false means that the case cannot be judged.
 func c04Parse(c *core.Ctx, s *gen.Spec) (r *rules.NetworkRule, text string, ok bool) {
+	if c.Rng.Intn(4) == 0 {
+		// A line that is rejected only after most of its modifiers have been
+		// loaded, parsed right before the rule under test: nothing of it may
+		// leak into the next rule.
+		p, _ := gen.RandomMaskSpec(c.Rng, gen.AllMods, 0.6)
+		bad := p.Render(c.Rng)
+		if strings.Contains(bad, "$") {
+			bad += []string{",nosuchmodifier", ",domain=", ",dnstype=NOSUCHTYPE", ",client=", ",ctag=UPPER"}[c.Rng.Intn(5)]
+			if _, err := rules.NewNetworkRule(bad, 1); err == nil {
+				c.Inconclusive("poison-line-accepted")
+			} else {
+				c.Event("rejected_lines_parsed_before_a_rule", 1)
+			}
+		}
+	}
 	text = s.Render(c.Rng)
 	r, err := rules.NewNetworkRule(text, 1)
 	if err != nil {
